@@ -151,6 +151,10 @@ bool exec_basic(ExecCtx &c) {
       int slot = op.a % NG;
       if (!P.g[slot]) return true;
       out.target = SLOT_G0 + slot;
+      if (c.task >= 0) {
+        sim::Exempt e;
+        if (P.g[slot]->getData().use_count() == 2) probe(PR_LAST_OWNER_TASK);
+      }
       libcall(out, [&] { P.g[slot].reset(); });
       return true;
     }
@@ -372,6 +376,10 @@ bool exec_basic(ExecCtx &c) {
       int slot = op.a % NS;
       if (!P.s[slot]) return true;
       out.target = SLOT_S0 + slot;
+      if (c.task >= 0) {
+        sim::Exempt e;
+        if (P.s[slot]->getGrid().getData().use_count() == 2) probe(PR_LAST_OWNER_TASK);
+      }
       libcall(out, [&] { P.s[slot].reset(); });
       return true;
     }
